@@ -452,7 +452,7 @@ class Rig3(c11.Rig):
             if i is not b.irc: b.world.ircs.remove(i)
         S = self.S; drivers = self.drivers
         S.SocketDriver._instances[:] = []
-        drivers._drivers.clear(); drivers._newDrivers[:] = []; drivers._deadDrivers.clear()
+        drivers._drivers.clear(); drivers._newDrivers.clear(); drivers._deadDrivers.clear()
         self.conf.supybot.drivers.poll._callbacks = []
         self.socks = []
         self.ctl.reset()
